@@ -106,9 +106,13 @@ fn deporder_embedded(case: &Value) -> Value {
             }
             let mut lib = raw::Library::new("lib", raw::Units::Nano);
             for it in &items { lib.cells.push(cells[*it - 1].clone()); }
-            let order = raw::DepOrder::order(&lib);
-            let names: Vec<i64> = order.iter().map(|p| unname(&p.read().unwrap().name)).collect();
-            json!({"id": id(case), "outcome":"ok", "order": names})
+            match raw::DepOrder::order(&lib) {
+                Ok(order) => {
+                    let names: Vec<i64> = order.iter().map(|p| unname(&p.read().unwrap().name)).collect();
+                    json!({"id": id(case), "outcome":"ok", "order": names})
+                }
+                Err(e) => json!({"id": id(case), "outcome":"err", "msg": err_str(e)}),
+            }
         }
         "rawproto" => {
             use layout21raw as raw;
@@ -171,9 +175,13 @@ fn deporder_embedded(case: &Value) -> Value {
             let mut lib = t::library::Library::new("lib");
             for it in &items { lib.cells.push(cells[*it - 1].clone()); }
             if which == "tetris" {
-                let order = lib.dep_order();
-                let names: Vec<i64> = order.iter().map(|p| unname(&p.read().unwrap().name)).collect();
-                json!({"id": id(case), "outcome":"ok", "order": names})
+                match lib.dep_order() {
+                    Ok(order) => {
+                        let names: Vec<i64> = order.iter().map(|p| unname(&p.read().unwrap().name)).collect();
+                        json!({"id": id(case), "outcome":"ok", "order": names})
+                    }
+                    Err(e) => json!({"id": id(case), "outcome":"err", "msg": err_str(e)}),
+                }
             } else {
                 match t::conv::proto::ProtoExporter::export(&lib) {
                     Ok(p) => {
